@@ -197,6 +197,10 @@ func demonstrateClasses(r *vkit.R, m *material, ab *admissionBed) map[string]boo
 			// a panic that escapes the consumers' own recover points (demo helpers recover around the code under test)
 			broken, how = true, "panic in "+rec.Frame+": "+rec.Value
 		}
+		if !broken && strings.Contains(how, "watchdog") {
+			// the demonstration could not be carried out (timing): the class would silently go unjudged
+			r.Inconclusive("demonstration of breaking class " + c.name + " could not be carried out: " + how)
+		}
 		entry := map[string]interface{}{"demonstrated": broken, "how": how}
 		if broken {
 			judged[c.name] = true
